@@ -7,7 +7,7 @@ import DhtVerif.Lemmas.C03
 import DhtVerif.Lemmas.C03Inv
 import DhtVerif.Lemmas.C03Wake
 import DhtVerif.Lemmas.C03Rep
-import DhtVerif.Props.SourceTrees
+import DhtVerif.Props.STHaveQuery
 namespace Dht
 
 def idxAt (l : List String) (x : String) : Nat := l.findIdx (· == x)
